@@ -604,7 +604,7 @@ def to_tla(prog):
 # ------------------------------------------------------------------------------------------------ queries
 def mkq(q, f=0, kind="", pre="", name="", n=0, m=0, s="", sel=()):
     return {"q": q, "f": f, "kind": kind, "pre": pre, "name": name, "n": n, "m": m, "s": s, "sel": list(sel),
-            "rf": 0, "ri": 0, "rj": 0, "ty": 0, "err": ""}
+            "l": [], "rf": 0, "ri": 0, "rj": 0, "ty": 0, "err": ""}
 
 
 def go_types(F):
@@ -639,6 +639,7 @@ def _walk_types(t, sel=()):
 def queries(img, compiled=False):
     """(queries after every registration, queries for the private registry of RegisterAST)"""
     qs, qa = [], []
+    mnames = sorted({mth["name"] for F in img for sv in F["services"] for mth in sv["methods"]}) + ["nosuch"]
     for fi, F in enumerate(img):
         f = fi + 1
         qs.append(mkq("fd", f))
@@ -671,7 +672,12 @@ def queries(img, compiled=False):
         qs.append(mkq("get", f, "struct", "nosuch", "S1"))
         qs.append(mkq("lookup", f, "struct", "", F["structs"][0]["name"] if F["structs"] else "NoSuch"))
         # services
+        for si, sd in enumerate(F["structs"]):
+            qs.append(mkq("closure", f, n=si + 1))
         for si, sv in enumerate(F["services"]):
+            qs.append(mkq("allmethods", f, n=si + 1))
+            for mn in mnames:        # any method of the program may be inherited
+                qs.append(mkq("methodfromall", f, n=si + 1, s=mn))
             qs.append(mkq("parent", f, n=si + 1))
             for mth in sv["methods"]:
                 qs.append(mkq("method", f, pre="", name=sv["name"], s=mth["name"]))
@@ -762,6 +768,9 @@ def via_clash(img, q):
         return clash(F["services"][q["n"] - 1]["base"]["pre"])
     if q["q"] == "tref":
         return clash(type_at(img, q)["pre"])
+    if q["q"] in ("allmethods", "methodfromall", "closure"):
+        # transitive: may pass through any alias of the file (files with a clash are the main files of one topology)
+        return any(clash(i["alias"]) for i in F["incs"])
     return False
 
 
@@ -785,7 +794,7 @@ def has_map_values(F):
 
 def state_dependent(img, q):
     """can the answer change while other files of the program are (not yet) registered?"""
-    if q["q"] in ("fd", "inc", "bygo", "togo", "own", "glob", "lookup"):
+    if q["q"] in ("fd", "inc", "bygo", "togo", "own", "glob", "lookup", "allmethods", "methodfromall", "closure"):
         return True
     if q["q"] in ("get", "method"):
         return q["pre"] != ""
